@@ -162,6 +162,8 @@ PROPS["C03"] = dict(
     harnesses=[
         dict(pkg=PT, run="^VerifC03_Trace_Quick$", tiers=["quick", "thorough"], replay="model", reach=["ban-enforced", "allow-resumed", "kill-verdict"], timeout=900),
         dict(pkg=PT, run="^VerifC03_MultiProc$", tiers=["quick", "thorough"], replay="model", reach=["ban-enforced", "allow-resumed", "kill-verdict"], timeout=900),
+        # Handle: strictest verdict over the paths a call names, ban return value = minus the configured errno, unsafe mode
+        dict(pkg=RP, run="^VerifC03_HandlerVerdicts$", tiers=["quick", "thorough"], replay="model", preempt=0, reach=["handled", "ban"]),
         # launcher side (C03-g): PTRACE_TRACEME and the self-stop precede the filter load for every option set with ptrace
         dict(pkg=FE, run="^VerifC04_OptionsBundled_p1$", tiers=["quick", "thorough"], replay="model", preempt=0, timeout=1500, reach=["stops-first"]),
         dict(pkg=FE, run="^VerifC04_OptionsBundled_p3$", tiers=["quick", "thorough"], replay="model", preempt=0, timeout=1500, reach=["stops-first"]),
